@@ -151,7 +151,20 @@ def check(rep, spec):
         return None
     Parr = np.array(P)
     owner = []
-    for k in range(n):
+    if spec.get("exact32"):
+        # every input coordinate is a float32 number: the tree (float32 columns) shows the input positions EXACTLY, so nodes are identified by equality - near-duplicate
+        # points (a few float32 steps apart) stay distinct, exact duplicates are interchangeable (handed out in input order)
+        key = lambda p: tuple(np.asarray(p, dtype=np.float32).tolist())
+        buckets = {}
+        for j, p in enumerate(P):
+            buckets.setdefault(key(p), []).append(j)
+        for k in range(n):
+            b = buckets.get(key(xyz[k]))
+            if not b:
+                rep(carrier, "spanning-each-point-once", spec, f"node {k} at {xyz[k].tolist()} is not an input point, or is shown more often than it was given", "every input point exactly once")
+                return None
+            owner.append(b.pop(0))
+    for k in range(n if not owner else 0):
         d = np.sqrt(((Parr - xyz[k]) ** 2).sum(axis=1))
         j = int(d.argmin())
         if d[j] > 1e-4 * (1 + float(np.abs(Parr[j]).max())):
@@ -207,6 +220,65 @@ def grid_points():
     ds = sorted(dist(a, b) for a, b in itertools.combinations(pts, 2))
     assert min(b - a for a, b in zip(ds, ds[1:])) > 1e-7, "grid perturbation is not generic"
     return pts
+
+
+def all_configs():
+    """every combination of the options: class x balancing factor x branching limit x root exemption x sorting"""
+    out = []
+    for K in (-1, 1, 2, 3):
+        for ex in (True, False):
+            for sort in (True, False):
+                out.append((("mst", 0.0, K, ex), sort))
+                for bf in (0.0, 0.05, 0.4, 1.0):
+                    out.append((("cuntz", bf, K, ex), sort))
+    return out
+
+
+SHAPES = ("generic", "collinear", "coplanar", "near-duplicates", "exact-duplicates", "near-the-soma", "on-the-soma")
+POSES = (0.0, 1e3, 1e4, 1e5)
+CLOSE = (1e-3, 1e-2, 1e-1)
+
+
+def f32(v):
+    return float(np.float32(v))
+
+
+def posed_cloud(rng, shape, magnitude, with_soma):
+    """a small cloud of the given kind in a pose `magnitude` away from the origin (every coordinate a float32 number, so that the tree shows it exactly).
+    Kinds: generic | collinear | coplanar | some points 1e-3 .. 1e-1 away from another point | some points given twice | (soma given) some points
+    1e-3 .. 1e-1 away from the soma | a point AT the soma.  Returns (points, soma or None)."""
+    n = rng.randint(3, 12)
+    if shape == "collinear":
+        d = [rng.uniform(0.3, 1.0) * rng.choice((-1, 1)) for _ in range(3)]
+        ts = sorted(rng.uniform(0, 12) for _ in range(n))
+        base = [[t * c for c in d] for t in ts]
+        rng.shuffle(base)
+    elif shape == "coplanar":
+        u = [rng.uniform(-1, 1) for _ in range(3)]
+        w = [rng.uniform(-1, 1) for _ in range(3)]
+        base = [[a * u[c] + b * w[c] for c in range(3)] for a, b in ((rng.uniform(0, 9), rng.uniform(0, 9)) for _ in range(n))]
+    else:
+        base = [[rng.uniform(0, 9) for _ in range(3)] for _ in range(n)]
+    off = [magnitude * rng.uniform(0.5, 1.5) * rng.choice((-1, 1)) for _ in range(3)]
+    pts = [[b[c] + off[c] for c in range(3)] for b in base]
+    soma = None
+    if with_soma:
+        soma = [f32(off[c] + rng.uniform(0, 9)) for c in range(3)]
+    near = lambda p: [p[c] + rng.choice(CLOSE) * rng.uniform(0.3, 1.0) * rng.choice((-1, 1)) for c in range(3)]
+    if shape == "near-duplicates":
+        for _ in range(rng.randint(1, 3)):
+            pts.insert(rng.randrange(len(pts) + 1), near(rng.choice(pts)))
+    elif shape == "exact-duplicates":
+        for _ in range(rng.randint(1, 2)):
+            pts.insert(rng.randrange(len(pts) + 1), list(rng.choice(pts)))
+    elif shape == "near-the-soma" and soma is not None:
+        for _ in range(rng.randint(1, 3)):
+            pts.insert(rng.randrange(len(pts) + 1), near(soma))
+    elif shape == "on-the-soma" and soma is not None:
+        pts.insert(rng.randrange(len(pts) + 1), list(soma))
+        if rng.random() < 0.5:
+            pts.insert(rng.randrange(len(pts) + 1), near(soma))
+    return [[f32(v) for v in p] for p in pts], soma
 
 
 CONFIGS = [  # (cls, bf, K, exclude_soma)
@@ -281,11 +353,35 @@ def run(ctx):
             sp["names"] = ["ID", "T", "X", "Y", "Z", "R", "PID"]
             check(rep, sp)
             ctx.case("given-column-names", dict(n=n, first=list(pts[0]), cfg=list(CONFIGS[r % len(CONFIGS)]), sort=sort))
+    # poses: the property speaks about every point set, wherever it lies.  Clouds of every kind (generic, collinear, coplanar, with near-duplicate and duplicate points,
+    # with points next to / at the soma) x distance from the origin (0, 1e3, 1e4, 1e5) x soma given or not x EVERY option combination (rotating through the clouds).
+    # Coordinates are float32 numbers handed over as float64: the library computes in double precision, the float32 tree shows the input positions exactly.
+    combos = all_configs()
+    rounds = 3 if quick else 12
+    idx = 0
+    for _ in range(rounds):
+        for shape in SHAPES:
+            for mag in POSES:
+                for with_soma in (True, False):
+                    if shape in ("near-the-soma", "on-the-soma") and not with_soma:
+                        continue
+                    pts, soma = posed_cloud(rng, shape, mag, with_soma)
+                    for _c in range(4 if quick else 8):
+                        cfg, sort = combos[idx % len(combos)]
+                        idx += 1
+                        sp = mk_spec(pts, soma, cfg, sort)
+                        sp["exact32"] = True
+                        gap = check(rep, sp)
+                        if gap is not None and gap <= 1e-9:
+                            ties += 1
+                        ctx.case("posed-cloud", dict(kind=shape, away=mag, n=len(pts), first=list(pts[0]), cfg=list(cfg), soma=soma is not None, sort=sort))
     if ties:
         ctx.notes.append(f"{ties} cases met a near tie (< 1e-9) in the greedy simulation; their parent tables were not compared")
     ctx.rule(f"every subset of 2..{kmax} points of a generically perturbed 3x3x2 grid (rotating first point, soma given for a third, sort on/off alternating) with the plain-MST "
              f"configuration and one rotating configuration out of {len(CONFIGS)} (class, bf in 0..1, branching limit in -1,1,2,3, root exempt or not); {nrand} seeded random clouds of 2..{nmaxpts} "
-             "points x 4-5 configurations, every second one on a transform object that was first applied to a 2-point cloud; float32 clouds of 4..24 points offset by ~1e3 from the origin; small clouds built with non-default column names, sort on and off. Non-trivial = every case (>= 2 points).", exhaustive=False)
+             "points x 4-5 configurations, every second one on a transform object that was first applied to a 2-point cloud; float32 clouds of 4..24 points offset by ~1e3 from the origin; small clouds built with non-default column names, sort on and off; posed clouds: "
+             f"kinds {', '.join(SHAPES)} (near = 1e-3 .. 1e-1 apart) x distance from the origin {', '.join(str(int(m)) for m in POSES)} x soma given / not, rotating through all {len(combos)} combinations of "
+             "class x bf (0, 0.05, 0.4, 1) x limit (-1, 1, 2, 3) x root exemption x sorting, float32-representable coordinates computed in float64. Non-trivial = every case (>= 2 points).", exhaustive=False)
 
 
 def replay(spec):
